@@ -33,10 +33,14 @@ def _missing(v):
     return v is None or (isinstance(v, float) and math.isnan(v))
 
 
+FALSY = {"shape": ["", "sq"], "size": [0, 12]}  # categories that are falsy in Python: the empty string, the code 0
+
+
 def scenario_for(cfg):
     m = loader.load("mlmodel.categories_to_integers")
     ntr, nte = cfg["train_rows"], cfg["test_rows"]
     single, skip, remove = cfg["single"], cfg["skip_errors"], cfg["remove"]
+    POOL = FALSY if cfg.get("pool") == "falsy" else globals()["POOL"]
 
     def scenario(C):
         fixed = cfg.get("fixed") or {}
@@ -55,7 +59,12 @@ def scenario_for(cfg):
         # row labels of the table to transform: distinct, or repeated (chunks concatenated without ignore_index)
         Xte = _frame(test, nte, index=["t5"] * nte if cfg.get("dup_index") else [f"t{i * 2 + 5}" for i in range(nte)])
         Xte0 = Xte.copy()
-        est = m.CategoriesToIntegers(columns=list(COLS), remove=remove, skip_errors=skip, single=single)
+        if cfg.get("via_set_params"):
+            # the policy for unseen categories is a hyper-parameter like any other: set after construction
+            est = m.CategoriesToIntegers(columns=list(COLS), remove=remove, skip_errors=not skip, single=single)
+            est.set_params(skip_errors=skip)
+        else:
+            est = m.CategoriesToIntegers(columns=list(COLS), remove=remove, skip_errors=skip, single=single)
         r = est.fit(Xtr)
         C.true(r is est, "fit-returns-self")
         cats = {c: sorted(set(v for (i, cc), v in train.items() if cc == c and not _missing(v))) for c in COLS}
@@ -124,6 +133,10 @@ def configs(tier):
                     out.append(dict(train_rows=3, test_rows=1, train_missing=True, single=single, skip_errors=skip, remove=remove))
                     if remove is None:
                         out.append(dict(train_rows=2, test_rows=2, train_missing=False, single=single, skip_errors=skip, remove=remove, dup_index=True))
+    for single in (False, True):
+        out.append(dict(train_rows=2, test_rows=1 if tier == "quick" else 2, train_missing=False, single=single, skip_errors=True, remove=None, pool="falsy"))
+        for skip in (False, True):
+            out.append(dict(train_rows=2, test_rows=1, train_missing=False, single=single, skip_errors=skip, remove=None, via_set_params=True))
     # spread over the cores: the first training row is enumerated here (programs), the rest by the engine
     full = []
     for c in out:
